@@ -1075,3 +1075,73 @@ Proof.
     + exact Hk.
   - intros v Hv. unfold quad_x_points. apply app_nth1. exact Hv.
 Qed.
+
+(* ------------------------------------------------------------------ to_meshtri: boundary lookup by searchsorted *)
+Definition pair_ok (nv : nat) (f : list nat) : Prop := length f = 2 /\ nth 0 f 0 < nv /\ nth 1 f 0 < nv.
+
+Lemma facet_key_mono nv a b : pair_ok nv a -> pair_ok nv b -> lex_lt a b -> facet_key nv a < facet_key nv b.
+Proof.
+  intros [Ha [Ha0 Ha1]] [Hb [Hb0 Hb1]] Hl. unfold facet_key.
+  destruct a as [|a0 [|a1 [|? ?]]]; try discriminate. destruct b as [|b0 [|b1 [|? ?]]]; try discriminate.
+  simpl in *. unfold lex_lt in Hl. simpl in Hl.
+  apply orb_true_iff in Hl. destruct Hl as [Hl|Hl].
+  - apply Nat.ltb_lt in Hl. nia.
+  - apply andb_true_iff in Hl. destruct Hl as [He Hl]. apply Nat.eqb_eq in He. subst.
+    apply orb_true_iff in Hl. destruct Hl as [Hl|Hl]; [apply Nat.ltb_lt in Hl; lia|].
+    apply andb_true_iff in Hl. destruct Hl as [_ Hf]. discriminate.
+Qed.
+
+Lemma searchsorted_sorted (L : list nat) m : StronglySorted lt L -> m < length L ->
+  searchsorted L (nth m L 0) = m.
+Proof.
+  unfold searchsorted. revert m. induction L as [|x L IH]; intros m Hs Hm; simpl in Hm; [lia|].
+  inversion Hs as [|? ? Hs' Hall]; subst. rewrite Forall_forall in Hall. destruct m as [|m]; simpl.
+  - rewrite Nat.ltb_irrefl.
+    assert (Hf : filter (fun k => k <? x) L = []).
+    { clear -Hall. induction L as [|y L IH]; [reflexivity|]. simpl.
+      replace (y <? x) with false by (symmetry; apply Nat.ltb_ge; specialize (Hall y (or_introl eq_refl)); lia).
+      apply IH. intros z Hz. apply Hall. right. exact Hz. }
+    rewrite Hf. reflexivity.
+  - assert (Hx : x < nth m L 0) by (apply Hall, nth_In; lia).
+    replace (x <? nth m L 0) with true by (symmetry; apply Nat.ltb_lt; exact Hx). simpl.
+    f_equal. apply IH; [exact Hs' | lia].
+Qed.
+
+(* split_spec, facet carry-over of to_meshtri by independent lookup: for a strictly lexicographically sorted facet
+   table NF of vertex pairs below nv and ANY tag (any order, repeated entries allowed) all of whose facets are still
+   facets of the triangle mesh, the j-th number returned designates the new facet with the same vertex pair as the
+   j-th smallest tagged facet; nothing is dropped and repeated entries stay repeated *)
+Theorem lookup_boundary_spec (nv : nat) (OF NF : mat nat) (ixs : list nat) :
+  StronglySorted lex_lt NF -> Forall (pair_ok nv) NF ->
+  (forall k, In k ixs -> In (nth k OF []) NF) ->
+  length (lookup_boundary nv OF NF ixs) = length ixs /\
+  forall j, j < length ixs ->
+    nth (nth j (lookup_boundary nv OF NF ixs) 0) NF [] = nth (nth j (sort_nat ixs) 0) OF [].
+Proof.
+  intros HNF Hok Hin. assert (Hp := sort_nat_perm ixs).
+  assert (Hkeys : StronglySorted lt (map (facet_key nv) NF)).
+  { clear Hin. induction HNF as [|a l Hs IH Hall]; simpl; constructor.
+    - apply IH. inversion Hok; assumption.
+    - inversion Hok as [|? ? Ha Hl]; subst. rewrite Forall_forall in *. intros y Hy.
+      apply in_map_iff in Hy. destruct Hy as [b [<- Hb]]. apply facet_key_mono; [exact Ha | apply Hl; exact Hb | apply Hall; exact Hb]. }
+  unfold lookup_boundary. split; [rewrite map_length; apply (Permutation_length Hp)|].
+  intros j Hj. assert (Hj' : j < length (sort_nat ixs)) by (rewrite (Permutation_length Hp); exact Hj).
+  rewrite (map_nth_in _ (sort_nat ixs) j 0 0) by exact Hj'.
+  set (i := nth j (sort_nat ixs) 0).
+  assert (Hi : In i ixs) by (eapply Permutation_in; [exact Hp | apply nth_In; exact Hj']).
+  destruct (In_nth _ _ [] (Hin i Hi)) as [m [Hm Hnm]].
+  rewrite <- Hnm. f_equal.
+  rewrite <- (map_nth_in (facet_key nv) NF m [] 0) by exact Hm.
+  apply searchsorted_sorted; [exact Hkeys | rewrite map_length; exact Hm].
+Qed.
+
+(* orientation carry-over: the flag selects the cell of the new facet that is a child of the tagged quadrilateral c
+   (children of c are the triangles k with k mod nt = c), whenever one of the two cells of the new facet is such a child *)
+Theorem lookup_flag_spec (nt : nat) (f2t0' f2t1' : list nat) (g : nat) (c : Z) :
+  (Z.of_nat (nth g f2t0' 0 mod nt) = c \/ Z.of_nat (nth g f2t1' 0 mod nt) = c) ->
+  Z.of_nat (nth g (if lookup_flag nt f2t0' g c then f2t1' else f2t0') 0 mod nt) = c.
+Proof.
+  intros H. unfold lookup_flag. destruct (Z.eqb_spec (Z.of_nat (nth g f2t0' 0 mod nt)) c) as [He|Hne]; simpl.
+  - exact He.
+  - destruct H as [H|H]; [contradiction | exact H].
+Qed.
